@@ -45,11 +45,19 @@ IsPrefix(p, u) == Len(p) <= Len(u) /\ \A k \in 1..Len(p) : u[k] = p[k]
 (* ---- the same notions on suffixes of T by index, without building subsequences ---- *)
 (* (MC_SuffixArray checks that they agree with the sequence definitions above)         *)
 
-RECURSIVE SufCpl(_, _, _, _)
-SufCpl(T, i, j, k) ==
-    IF i + k < Len(T) /\ j + k < Len(T) /\ T[i + k + 1] = T[j + k + 1] THEN SufCpl(T, i, j, k + 1) ELSE k
-(* = CommonPrefixLen(Suffix(T,i), Suffix(T,j)) *)
-SufLcp(T, i, j) == SufCpl(T, i, j, 0)
+(* = CommonPrefixLen(Suffix(T,i), Suffix(T,j)): the number of leading positions on which the two *)
+(* suffixes agree = (first mismatching offset) - 1, or the length m of the shorter suffix when    *)
+(* there is no mismatch.  Written without recursion (TLC evaluates deep recursion slowly): the     *)
+(* mismatching offsets are collected first in a window of w bytes and only then in the rest.      *)
+MinOf(S) == CHOOSE x \in S : \A y \in S : x <= y
+SufLcpW(T, i, j, w) ==
+    LET m == Len(T) - (IF i > j THEN i ELSE j)
+        Mis(lo, hi) == { q \in lo..hi : T[i + q] # T[j + q] }
+        S1 == Mis(1, IF m < w THEN m ELSE w) IN
+    IF S1 # {} THEN MinOf(S1) - 1
+    ELSE IF m <= w THEN m
+    ELSE LET S2 == Mis(w + 1, m) IN IF S2 # {} THEN MinOf(S2) - 1 ELSE m
+SufLcp(T, i, j) == SufLcpW(T, i, j, 16)
 
 (* = LexLess(Suffix(T,i), Suffix(T,j)) *)
 SufLess(T, i, j) ==
@@ -153,26 +161,26 @@ BuildRefused == UNCHANGED <<T, sa, have>>
 (* ---- the one the definitions give?) and an action that accepts exactly those answers     ---- *)
 Same == UNCHANGED <<T, sa, have>>
 
-(* suffix_at_rank(r) for every r in 0..n : the array entry, None at r = n.  Options are sequences 0/1 *)
-RanksAns(r) ==
+(* suffix_at_rank(r) for every r in 0..n : the array entry, None (projected to -1) at r = n; *)
+(* text_len() = n                                                                           *)
+RanksAns(r, n) ==
     /\ have
+    /\ n = Len(T)
     /\ Len(r) = Len(T) + 1
-    /\ \A k \in 1..Len(T) : r[k] = <<sa[k]>>
-    /\ r[Len(T) + 1] = <<>>
-RanksOk(r) == RanksAns(r) /\ Same
+    /\ \A k \in 1..Len(T) : r[k] = sa[k]
+    /\ r[Len(T) + 1] = 0 - 1
+RanksOk(r, n) == RanksAns(r, n) /\ Same
 
-TextLen(n) == have /\ n = Len(T) /\ Same
-
+(* LcpArray::as_slice *)
 LcpAns(l) == have /\ LcpOk(T, sa, l)
 Lcp(l) == LcpAns(l) /\ Same
-(* lcp_at(r) for every r in 0..n *)
-LcpAtAns(r) ==
+(* lcp_at(r) for every r in 0..n : the entry, None (-1) at r = n *)
+LcpAtAns(at) ==
     /\ have
-    /\ Len(r) = Len(T) + 1
-    /\ \A k \in 1..Len(T) : Len(r[k]) = 1
-    /\ LcpOk(T, sa, [k \in 1..Len(T) |-> r[k][1]])
-    /\ r[Len(T) + 1] = <<>>
-LcpAt(r) == LcpAtAns(r) /\ Same
+    /\ Len(at) = Len(T) + 1
+    /\ LcpOk(T, sa, SubSeq(at, 1, Len(T)))
+    /\ at[Len(T) + 1] = 0 - 1
+LcpAt(at) == LcpAtAns(at) /\ Same
 (* LCP not computed by this configuration (documented None) / Err: refusal *)
 LcpAbsent == Same
 
